@@ -50,6 +50,22 @@ COLL_MD = {
 
 
 # ----------------------------------------------------------------------------- extended metadata prototypes
+def _cnt(v) -> int:
+    """the generated-name counter as a number of draws: an int in the code as it stands; if a change turns it into a
+    table of counters (per base name, say) the total of its entries — never a crash of the harness"""
+    if isinstance(v, bool):
+        return int(v)
+    if isinstance(v, int):
+        return v
+    try:
+        return sum(int(x) for x in v.values())
+    except Exception:
+        try:
+            return int(v)
+        except Exception:
+            return 0
+
+
 @dataclasses.dataclass
 class Docker:
     image: str = "default"
@@ -354,7 +370,7 @@ class Process:
         self._rec_names: Optional[List] = None
         self.asts: Dict[str, ast.AST] = {}  # label -> the one AST object of the translations that carry that label
         # importing the package already draws names (a class attribute of the miniAOD backend): count from here
-        self.counter_base = cvars.unique_var_index
+        self.counter_base = _cnt(cvars.unique_var_index)
         self._instrument()
         self.frame0 = frame_snapshot()
 
@@ -414,7 +430,7 @@ class Process:
     def tr(self, e: int, q: str, md: List[Dict[str, Any]], keep_files: bool = False, obj: Optional[str] = None, inner: Optional[Dict[str, Any]] = None) -> Dict[str, Any]:
         exe = self.execs[e]
         a = self.the_ast(q, md, obj, inner)
-        c0 = self.cvars.unique_var_index
+        c0 = _cnt(self.cvars.unique_var_index)
         self._rec_keys, self._rec_names = [], []
         self.log.lines = []
         d = Path(tempfile.mkdtemp(prefix="c07_"))
@@ -444,7 +460,7 @@ class Process:
             "stage": stage,
             "error": cls,
             "message": msg[:300],
-            "ticks": self.cvars.unique_var_index - c0,
+            "ticks": _cnt(self.cvars.unique_var_index) - c0,
             "files": files,
             "keys": [list(k) for k in keys],
             "names": names,
@@ -511,7 +527,7 @@ class Process:
             "spaces": sorted(spaces),
             "enums": sorted(enums),
             "execs": execs,
-            "counter": self.cvars.unique_var_index - self.counter_base,
+            "counter": _cnt(self.cvars.unique_var_index) - self.counter_base,
             # what changed in the rest of the process state since this Process was created: [path, before, now]
             "frame": frame_diff(self.frame0, frame_snapshot()),
         }
